@@ -68,7 +68,7 @@ def compare_lines(ctx, tag, S, E, Gref, sig, hint=None):
         judged += 1
         err = np.max(np.abs(S[:, :, k] - E[:, :, k])) / max(np.max(np.abs(E[:, :, k])), 1e-300)
         ctx.maxi(f"{tag}: worst err/(1e-9 cond)", err / (1e-9 * c))
-        if err > 1e-9 * c and ok:
+        if not (err <= 1e-9 * c) and ok:
             ok = False
             h = hint(k) if hint else ""
             ctx.fail(f"{sig}:{h or 'mismatch'}", f"{tag}: line {k}: relative difference {err:.3e} (cond {c:.1e}) {h}")
@@ -175,9 +175,9 @@ def run_general(ctx, rng):
             err_ref = np.max(np.abs(S[:nref, :, k] - E[:nref, :, k])) / np.max(np.abs(E[:nref, :, k]))
             err_rov = np.max(np.abs(S[nref:, :, k] - E[nref:, :, k])) / max(np.max(np.abs(E[nref:, :, k])), 1e-300)
             tol = 1e-9 * condmax[k]
-            if err_ref > tol and bad is None:
+            if not (err_ref <= tol) and bad is None:
                 bad = ("reference_block_not_mean", k, err_ref)
-            if err_rov > tol and bad is None:
+            if not (err_rov <= tol) and bad is None:
                 bad = ("roving_block_not_transmissibility_times_mean", k, err_rov)
         if bad:
             ctx.fail(f"fn_gen:{bad[0]}", f"line {bad[1]}: relative difference {bad[2]:.3e} (method {method}, pov {pov}, nxseg {nx}, gains {np.round(gains, 3).tolist()})")
@@ -200,7 +200,7 @@ def run_general(ctx, rng):
                 for k in np.where(ok_lines)[0][:: max(1, int(ok_lines.sum() // 40))]:
                     Ek = s[nref:, :, k] @ np.linalg.solve(s[:nref, :, k], new_mean[:, :, k])
                     e = np.max(np.abs(S2[off:off + n, :, k] - Ek)) / max(np.max(np.abs(Ek)), 1e-300)
-                    if e > 1e-9 * 1e6 * 10:
+                    if not (e <= 1e-9 * 1e6 * 10):
                         ctx.fail("fn_gen:gain_changes_transmissibility", f"scaling setup {j} by {g:.3g}: roving block at line {k} is not T_k * new mean (rel {e:.2e})")
                         break
                 off += n
